@@ -78,3 +78,12 @@ func (o *Overlay) VerifC06Reset() {
 	o.pendingTreeMarshal = make(map[RosterID][]*TreeMarshal)
 	o.pendingTreeLock.Unlock()
 }
+
+// VerifC06DropParked forgets the protocol messages parked for trees that are
+// not known yet. The C06 harness injects such messages only to make the overlay
+// request a tree; what happens to parked messages is property C01.
+func (o *Overlay) VerifC06DropParked() {
+	o.pendingMsgLock.Lock()
+	o.pendingMsg = nil
+	o.pendingMsgLock.Unlock()
+}
